@@ -113,11 +113,22 @@ PROPS = {
         'assumptions': ['runtime.Callers / runtime.Caller report logical frames as documented, also under inlining (exercised, not proved)'],
         'rule': 'one case per (exported stack-capturing or domain function, call shape, depth); all are non-trivial',
     },
+    'C17': {
+        'streams': [AUX('C17', '{build}/verifharness migrate {out}', 1, 1, model=True)],
+        'explanation': 'theorems: duplicate targets rejected; registration of a rename chain of ANY length in ANY order succeeds and resolves every name to the original one; encoded under the original name / decoded to the local type; every version assignment to sender / intermediary / receiver sees the original family and Is agrees. Run: every registration order (and duplicates) of chains of 1..3 renames for a leaf and a wrapper type against the real registry (compared with the model), and all 48 version assignments x 2 type kinds through real encode / decode with per-version registries and decoders',
+        'assumptions': ['Migrate.v transcribes RegisterTypeMigration (validated by the correspondence)'],
+        'rule': 'one case per registration order / per (kind, sender, intermediary, receiver) assignment; all non-trivial',
+    },
     'C18': {
         'streams': [AUX('C18', 'cd {verif}/harness && go build -race -tags verif -o {build}/verifharness_race ./cmd/verifharness && cd {verif} && GORACE="log_path={out}/race halt_on_error=0" {build}/verifharness_race race -seed {seed} -n {n} -out {out}', 40, 600, cgo=True)],
         'explanation': 'theorems: the write-effect table regenerated from the source (go/ssa, every function reachable from the observer API) lists no write to shared state; threads that do not write shared state are schedule-independent (any interleaving, any number of threads). Run: 16 goroutines x all observers on shared local / decoded / opaque errors of every kind under the race detector, results compared with the solo run',
         'assumptions': ['Go memory model for read-only sharing', 'soundness of the SSA write-effect extraction, including its caller-owned whitelist (translators/effects/main.go)', 'fmt, redact, logtags, sentry-go are exercised by the race detector only'],
         'rule': 'one case per goroutine run of the full observer set on a shared error; distinct = number of distinct trees',
+    },
+    'C20': {
+        'streams': [AUX('C20', '{build}/verifharness grpc -seed {seed} -n {n} -out {out}', 150, 3000)],
+        'explanation': 'theorems: for an error that is not itself a gRPC status, client(server(e)) is literally the value one EncodeError/DecodeError hop produces; the wire code is the attached code (Unknown when none or OK); status errors pass through. Run: the enumerated kind corpus, status / context leaves below wrappers and random trees returned from an in-memory gRPC service behind the real interceptors, compared with the direct hop (text, structure, annotations, %+v, Is) and with the raw status code',
+        'assumptions': ['grpc-go transports code, message and details unchanged; gogo/status conversions (exercised, not modelled)'],
     },
     'C19': {
         'streams': [S('C19', 600, 20000)],
